@@ -126,6 +126,24 @@ pub struct RunSummary {
     pub op_kinds: std::collections::BTreeMap<String, (u64, u64)>,
 }
 
+impl RunSummary {
+    pub fn absorb(&mut self, o: RunSummary) {
+        self.out.merge(o.out);
+        self.histories += o.histories;
+        self.steps += o.steps;
+        self.ok_steps += o.ok_steps;
+        self.samples.extend(o.samples);
+        if self.first_violation.is_none() {
+            self.first_violation = o.first_violation;
+        }
+        for (k, v) in o.op_kinds {
+            let e = self.op_kinds.entry(k).or_insert((0, 0));
+            e.0 += v.0;
+            e.1 += v.1;
+        }
+    }
+}
+
 /// Run `n` histories sharded over `threads` workers. `f(index)` must be deterministic.
 pub fn run_sharded<F>(n: u64, threads: usize, f: F) -> RunSummary
 where
